@@ -3,9 +3,13 @@
 //! Each program is a script and two contracts (script → A → B nesting) made of valid blocks (stack grow/shrink/
 //! regrow, register push/pop, heap allocation in every frame, stores/clears/copies/hashes into the frame's own
 //! stack and heap through pointers derived from `$sp`/`$hp`, loads, logs, calls) and ends, in a random frame, with
-//! at most one deliberately faulting store (beyond `$sp`, below `$ssp` into the caller's frame / the code / the
-//! call frame / the transaction bytes, into the gap between the regions, into the caller's heap, spanning both
-//! regions, beyond the memory size).
+//! at most one deliberately faulting WRITER (beyond `$sp`, the stale stack above `$sp`, below `$ssp` into the caller's
+//! frame / stack, the code, the call frame, the transaction id and bytes, the gap between the regions, the caller's heap,
+//! spanning both regions, beyond the memory size). The writer is any memory-writing opcode driven down a chosen path
+//! (`plant_writer`): plain stores and copies, signature recovery with an unrecoverable and with a valid signature, hashes,
+//! block hash, coinbase, code root, CCP/BLDD data and zero-fill tails, wide-integer results including the `$err = 1`
+//! results, ECOP, storage reads of present and absent slots — so that the FAILURE / ALTERNATIVE write paths are aimed at
+//! memory the context does not own, not only the success paths. The whole memory is diffed after a panic as well.
 //!
 //! After EVERY instruction the whole accessible memory is diffed against the snapshot taken before it.
 //! Request line `step <opcode> <sspB> <spB> <hpB> <prevHpB> <fpB> <sspA> <spA> <balLo> <balHi> <txLo> <txHi> <csLo>
@@ -21,11 +25,11 @@ use crate::streams::c23::{spec_owned, Own};
 use crate::streams::c24::*;
 use fuel_vm::{
     consts::VM_MAX_RAM,
-    fuel_asm::{op, wideint::{MathArgs, MathOp, MulArgs}, GMArgs, GTFArgs, Instruction, RegId},
+    fuel_asm::{op, wideint::{DivArgs, MathArgs, MathOp, MulArgs}, GMArgs, GTFArgs, Instruction, RegId},
 };
 
 #[derive(Clone, Copy, PartialEq, Debug)]
-enum Fault { None, BeyondSp, BelowSsp, CallFrame, Code, TxBytes, Gap, CallerHeap, Span, Huge, EmptyAtSp }
+enum Fault { None, BeyondSp, BelowSsp, CallFrame, Code, TxBytes, Gap, CallerHeap, Span, Huge, EmptyAtSp, StaleStack, CallerStack, TxId }
 
 struct Body { code: Vec<Instruction>, frame: u64, heap: u64, allocs: u64, external: bool, tro_done: bool, moved_ssp: bool }
 
@@ -37,7 +41,41 @@ const R_SRC: u8 = 0x18;
 const R_SD: u8 = 0x19;   // script data: [id_A ‖ 16 zero ‖ id_B ‖ 16 zero ‖ 32 zero bytes]
 const R_COIN: u8 = 0x1a;
 const R_AST: u8 = 0x1b;  // 32 zero bytes = the base asset id
+const R_X: u8 = 0x1c;
+const R_Y: u8 = 0x1d;
 const N_CONTRACTS: usize = 2;
+// extra script data (offsets from the start of the script data): a valid secp256k1 signature ‖ its message ‖ a valid
+// secp256r1 signature of the same message ‖ the id of a blob in storage ‖ 128 zero bytes (two points at infinity)
+const X_SIGK1: u16 = (48 * N_CONTRACTS + 32) as u16;
+const X_MSG: u16 = X_SIGK1 + 64;
+const X_SIGR1: u16 = X_MSG + 32;
+const X_BLOB: u16 = X_SIGR1 + 64;
+const X_ZERO: u16 = X_BLOB + 32;
+const BLOB_LEN: usize = 24;
+
+fn extra_data() -> (Vec<u8>, Vec<u8>) {
+    static CACHE: std::sync::OnceLock<(Vec<u8>, Vec<u8>)> = std::sync::OnceLock::new();
+    CACHE.get_or_init(extra_data_compute).clone()
+}
+
+fn extra_data_compute() -> (Vec<u8>, Vec<u8>) {
+    use fuel_crypto::{Message, SecretKey, Signature};
+    use fuel_vm::fuel_tx::BlobIdExt;
+    let msg = Message::new(b"c24b");
+    let sk = SecretKey::try_from(&[0x11u8; 32][..]).expect("secret key");
+    let sig_k1 = Signature::sign(&sk, &msg);
+    let sk_r1 = p256::ecdsa::SigningKey::from_slice(&[0x22u8; 32]).expect("p256 key");
+    let sig_r1 = fuel_crypto::secp256r1::sign_prehashed(&sk_r1, &msg).expect("p256 signature");
+    let blob: Vec<u8> = (0..BLOB_LEN as u8).map(|i| 0xB0 | (i & 0xF)).collect();
+    let blob_id = fuel_vm::fuel_types::BlobId::compute(&blob);
+    let mut x = vec![];
+    x.extend_from_slice(sig_k1.as_ref());
+    x.extend_from_slice(msg.as_ref());
+    x.extend_from_slice(sig_r1.as_ref());
+    x.extend_from_slice(blob_id.as_ref());
+    x.extend_from_slice(&[0u8; 128]);
+    (x, blob)
+}
 
 fn ptr_stack(b: &mut Body, ctx: &mut Ctx, len: u64) -> bool {
     // pointer to `len` owned stack bytes: $sp - off, off in [len, frame]
@@ -60,7 +98,7 @@ fn ptr_owned(b: &mut Body, ctx: &mut Ctx, len: u64) -> bool {
 
 /// one valid block
 fn block(b: &mut Body, ctx: &mut Ctx, callee: Option<(usize, usize, u64)>) {
-    match ctx.rng.below(34) {
+    match ctx.rng.below(37) {
         0 | 1 => { let k = *ctx.rng.pick(&[8u64, 16, 24, 64, 200, 256]); if b.frame + k < 3000 { b.code.push(op::cfei(k as u32)); b.frame += k; } }
         2 => { if b.frame >= 8 { let k = 8 * (1 + ctx.rng.below(b.frame / 8)); b.code.push(op::cfsi(k as u32)); b.frame -= k; } }
         3 => {
@@ -216,27 +254,95 @@ fn block(b: &mut Body, ctx: &mut Ctx, callee: Option<(usize, usize, u64)>) {
             }
         }
         32 => { b.code.push(op::movi(R_LEN, 16)); b.code.push(op::logd(RegId::ZERO, RegId::ONE, R_SD, R_LEN)); }
+        // any memory-writing opcode (success, failure and zero-fill paths) on 64 owned bytes
+        33 | 34 | 35 => { if ptr_owned(b, ctx, 64) { plant_writer(b, ctx, true); } }
         _ => {}
     }
 }
 
-fn fault(b: &mut Body, ctx: &mut Ctx, f: Fault, in_call: bool) {
-    let store = |b: &mut Body, ctx: &mut Ctx| match ctx.rng.below(6) {
+/// one instruction (preceded by its operand set-up, which leaves `R_PTR` alone) that WRITES memory at `R_PTR`: the plain stores and
+/// copies, and every opcode that writes on a failure / alternative path as well as on success. Returns nothing; the run loop
+/// recognises the instruction and derives (destination, length) and the specified outcome itself.
+fn plant_writer(b: &mut Body, ctx: &mut Ctx, valid: bool) {
+    let internal = !b.external;
+    let k = ctx.rng.below(if internal { 34 } else { 28 });
+    ctx.count(&format!("planted.w{k}"));
+    match k {
         0 => { b.code.push(op::movi(R_VAL, 0xAB)); b.code.push(op::sw(R_PTR, R_VAL, 0)); }
         1 => { b.code.push(op::movi(R_VAL, 0xAB)); b.code.push(op::sb(R_PTR, R_VAL, 0)); }
         2 => b.code.push(op::mcli(R_PTR, 8)),
         3 => { b.code.push(op::movi(R_LEN, 8)); b.code.push(op::mcl(R_PTR, R_LEN)); }
         4 => {
             // copy from owned memory (when the frame has 8 bytes of stack) or from the code into the target
-            if b.frame >= 8 { b.code.push(op::subi(R_SRC, RegId::SP, 8)); } else { b.code.push(op::move_(R_SRC, RegId::IS)); }
+            // (in a valid block always from the code, so that source and destination cannot overlap)
+            if b.frame >= 8 && !valid { b.code.push(op::subi(R_SRC, RegId::SP, 8)); } else { b.code.push(op::move_(R_SRC, RegId::IS)); }
             b.code.push(op::mcpi(R_PTR, R_SRC, 8));
         }
-        _ => {
-            if b.frame >= 8 { b.code.push(op::subi(R_SRC, RegId::SP, 8)); } else { b.code.push(op::move_(R_SRC, RegId::IS)); }
+        5 => {
+            if b.frame >= 8 && !valid { b.code.push(op::subi(R_SRC, RegId::SP, 8)); } else { b.code.push(op::move_(R_SRC, RegId::IS)); }
             b.code.push(op::movi(R_LEN, 8));
             b.code.push(op::mcp(R_PTR, R_SRC, R_LEN));
         }
-    };
+        6 => { b.code.push(op::movi(R_VAL, 0xABCD)); b.code.push(op::sqw(R_PTR, R_VAL, 0)); }
+        7 => { b.code.push(op::movi(R_VAL, 0x3ABCD)); b.code.push(op::shw(R_PTR, R_VAL, 0)); }
+        // signature recovery: FAILURE path (garbage signature: 64 zero bytes are written, $err = 1) …
+        8 => b.code.push(op::eck1(R_PTR, R_SD, R_AST)),
+        9 => b.code.push(op::ecr1(R_PTR, R_SD, R_AST)),
+        // … and SUCCESS path (the recovered key is written)
+        10 => { b.code.push(op::addi(R_SRC, R_SD, X_SIGK1)); b.code.push(op::addi(R_X, R_SD, X_MSG)); b.code.push(op::eck1(R_PTR, R_SRC, R_X)); }
+        11 => { b.code.push(op::addi(R_SRC, R_SD, X_SIGR1)); b.code.push(op::addi(R_X, R_SD, X_MSG)); b.code.push(op::ecr1(R_PTR, R_SRC, R_X)); }
+        12 | 13 => {
+            b.code.push(op::move_(R_SRC, RegId::IS));
+            b.code.push(op::movi(R_LEN, *ctx.rng.pick(&[0u32, 4, 20])));
+            if k == 12 { b.code.push(op::s256(R_PTR, R_SRC, R_LEN)); } else { b.code.push(op::k256(R_PTR, R_SRC, R_LEN)); }
+        }
+        // block hash: height 0 and a height in the future (zero hash)
+        14 => { if ctx.rng.chance(1, 2) { b.code.push(op::bhsh(R_PTR, RegId::ZERO)); } else { b.code.push(op::movi(R_X, 200_000)); b.code.push(op::bhsh(R_PTR, R_X)); } }
+        15 => b.code.push(op::cb(R_PTR)),
+        16 => { b.code.push(op::addi(R_SRC, R_SD, 48 * ctx.rng.below(2) as u16)); b.code.push(op::croo(R_PTR, R_SRC)); }
+        // code copy: bytes of the code, and the ZERO-FILL tail (offset past the end of the code)
+        17 | 18 => {
+            b.code.push(op::addi(R_SRC, R_SD, 48 * ctx.rng.below(2) as u16));
+            b.code.push(op::movi(R_LEN, *ctx.rng.pick(&[8u32, 40])));
+            if k == 17 { b.code.push(op::ccp(R_PTR, R_SRC, RegId::ZERO, R_LEN)); } else { b.code.push(op::movi(R_X, 0x3ffff)); b.code.push(op::ccp(R_PTR, R_SRC, R_X, R_LEN)); }
+        }
+        // blob data: bytes of the blob, the part past its end (zero fill), and a wholly zero-filled read
+        19 | 20 => {
+            b.code.push(op::addi(R_SRC, R_SD, X_BLOB));
+            b.code.push(op::movi(R_LEN, *ctx.rng.pick(&[8u32, 32])));
+            if k == 19 { b.code.push(op::movi(R_X, *ctx.rng.pick(&[0u32, 20]))); } else { b.code.push(op::movi(R_X, 0x3ffff)); }
+            b.code.push(op::bldd(R_PTR, R_SRC, R_X, R_LEN));
+        }
+        // wide integers: ordinary result, and the `$err = 1` results (x / 0, x mod 0 under UNSAFEMATH), and the divisor-0 form of muldiv
+        21 => {
+            let ma = MathArgs { op: *ctx.rng.pick(&[MathOp::ADD, MathOp::SUB, MathOp::XOR, MathOp::NOT]), indirect_rhs: true };
+            if ctx.rng.chance(1, 2) { b.code.push(op::wqop_args(R_PTR, R_AST, R_AST, ma)); } else { b.code.push(op::wdml_args(R_PTR, R_AST, R_AST, MulArgs { indirect_lhs: true, indirect_rhs: true })); }
+        }
+        22 | 23 | 24 => {
+            b.code.push(op::flag(RegId::ONE));      // F_UNSAFEMATH
+            match k {
+                22 => b.code.push(op::wddv_args(R_PTR, R_AST, R_AST, DivArgs { indirect_rhs: true })),
+                23 => b.code.push(op::wqam(R_PTR, R_AST, R_AST, R_AST)),
+                _ => b.code.push(op::wdmm(R_PTR, R_AST, R_AST, R_AST)),
+            }
+            b.code.push(op::flag(RegId::ZERO));
+        }
+        25 => b.code.push(op::wqmd(R_PTR, R_AST, R_AST, R_AST)),
+        // elliptic-curve addition of two points at infinity
+        26 | 27 => { b.code.push(op::addi(R_X, R_SD, X_ZERO)); b.code.push(op::ecop(R_PTR, RegId::ZERO, RegId::ZERO, R_X)); }
+        // contract storage (internal context): quad-word read of an ABSENT slot (zero fill) and of a PRESENT slot
+        28 => { b.code.push(op::addi(R_X, R_SD, X_MSG)); b.code.push(op::srwq(R_PTR, R_VAL, R_X, RegId::ONE)); }
+        29 => { b.code.push(op::swwq(R_SD, R_VAL, R_AST, RegId::ONE)); b.code.push(op::srwq(R_PTR, R_VAL, R_SD, RegId::ONE)); }
+        // dynamic storage read of a PRESENT slot (register and immediate length); of an ABSENT slot nothing is written
+        30 => { b.code.push(op::swwq(R_SD, R_VAL, R_AST, RegId::ONE)); b.code.push(op::movi(R_LEN, 32)); b.code.push(op::srdd(R_PTR, R_SD, RegId::ZERO, R_LEN)); }
+        31 => { b.code.push(op::swwq(R_SD, R_VAL, R_AST, RegId::ONE)); b.code.push(op::srdi(R_PTR, R_SD, RegId::ZERO, 32)); }
+        32 => { b.code.push(op::addi(R_X, R_SD, X_MSG)); b.code.push(op::movi(R_LEN, 32)); b.code.push(op::srdd(R_PTR, R_X, RegId::ZERO, R_LEN)); }
+        _ => { b.code.push(op::addi(R_X, R_SD, X_SIGK1)); let _ = R_Y; b.code.push(op::srwq(R_PTR, R_VAL, R_X, RegId::ONE)); }
+    }
+}
+
+fn fault(b: &mut Body, ctx: &mut Ctx, f: Fault, in_call: bool) {
+    let store = |b: &mut Body, ctx: &mut Ctx| plant_writer(b, ctx, false);
     match f {
         Fault::None => {}
         Fault::BeyondSp => { b.code.push(op::subi(R_PTR, RegId::SP, *ctx.rng.pick(&[0u16, 1, 7]).min(&(b.frame as u16)))); store(b, ctx); }
@@ -249,6 +355,12 @@ fn fault(b: &mut Body, ctx: &mut Ctx, f: Fault, in_call: bool) {
         Fault::Span => { b.code.push(op::subi(R_PTR, RegId::HP, 4)); b.code.push(op::mcli(R_PTR, 8)); }
         Fault::Huge => { b.code.push(op::not(R_PTR, RegId::ZERO)); b.code.push(op::subi(R_PTR, R_PTR, *ctx.rng.pick(&[0u16, 7, 8, 100]))); store(b, ctx); }
         Fault::EmptyAtSp => { b.code.push(op::move_(R_PTR, RegId::SP)); b.code.push(op::mcli(R_PTR, 0)); }
+        // allocated but no longer owned: the stack above `$sp` after a shrink
+        Fault::StaleStack => { b.code.push(op::cfei(96)); b.code.push(op::cfsi(96)); b.code.push(op::addi(R_PTR, RegId::SP, *ctx.rng.pick(&[0u16, 8, 24]))); store(b, ctx); }
+        // the caller's stack and saved registers, from inside a call: just below the own call frame
+        Fault::CallerStack => { if in_call { b.code.push(op::subi(R_PTR, RegId::FP, *ctx.rng.pick(&[64u16, 72, 128, 200]))); } else { b.code.push(op::movi(R_PTR, 344)); } store(b, ctx); }
+        // the transaction id at address 0 and the bytes right after it
+        Fault::TxId => { b.code.push(op::movi(R_PTR, *ctx.rng.pick(&[0u32, 1, 16, 31]))); store(b, ctx); }
     }
 }
 
@@ -265,7 +377,8 @@ fn body(ctx: &mut Ctx, nblocks: u64, callee: Option<(usize, usize, u64)>, f: Fau
     b
 }
 
-const FAULTS: &[Fault] = &[Fault::BeyondSp, Fault::BelowSsp, Fault::CallFrame, Fault::Code, Fault::TxBytes, Fault::Gap, Fault::CallerHeap, Fault::Span, Fault::Huge, Fault::EmptyAtSp];
+const FAULTS: &[Fault] = &[Fault::BeyondSp, Fault::BelowSsp, Fault::CallFrame, Fault::Code, Fault::TxBytes, Fault::Gap, Fault::CallerHeap, Fault::Span, Fault::Huge, Fault::EmptyAtSp,
+    Fault::StaleStack, Fault::CallerStack, Fault::TxId, Fault::StaleStack, Fault::CallerStack, Fault::Code, Fault::CallerHeap, Fault::BelowSsp];
 
 fn mnemonic(opc: u8) -> &'static str {
     crate::gen::instr_gen::TABLE.iter().find(|r| r.0 == opc).map(|r| r.1).unwrap_or("?")
@@ -287,7 +400,8 @@ fn run_program(ctx: &mut Ctx, idx: u64) {
     let f0 = fk(ctx, 0);
     let pos0 = ctx.rng.below(nb + 1);
     let s_body = body(ctx, nb, Some((0, 2, a_body.allocs)), f0, false, pos0);
-    let prog = Prog { script: s_body.code.clone(), contracts: vec![a_body.code.clone(), b_body.code.clone()] };
+    let (extra, blob) = extra_data();
+    let prog = Prog { script: s_body.code.clone(), contracts: vec![a_body.code.clone(), b_body.code.clone()], extra_data: extra, blob: Some(blob) };
     let mut built = build(ctx.seed.wrapping_mul(1_000_003).wrapping_add(idx), &prog);
     let replay = || format!("program {idx}: faults script={f0:?}@{pos0} A={f1:?}@{pos1} B={f2:?}@{pos2}; script={:?}; A={:?}; B={:?}",
         s_body.code.iter().map(|i| u32::from(*i)).collect::<Vec<_>>(), a_body.code.iter().map(|i| u32::from(*i)).collect::<Vec<_>>(), b_body.code.iter().map(|i| u32::from(*i)).collect::<Vec<_>>());
@@ -317,13 +431,48 @@ fn run_program(ctx: &mut Ctx, idx: u64) {
         ctx.count(&format!("op.{name}"));
         maxdepth = maxdepth.max(depth);
         // owner-checked store instructions: outcome against the model of `write`
+        let rg = |r: RegId| regs[r.to_u8() as usize];
+        // every instruction that writes `len` bytes at `addr` through the owner-checked `write`/`write_bytes` (its source operands
+        // are readable in all generated programs, so the destination check decides the outcome)
         let store = match Instruction::try_from(raw) {
-            Ok(Instruction::SW(i)) => { let (a, _, imm) = i.unpack(); Some((regs[a.to_u8() as usize] as u128 + 8 * imm.to_u16() as u128, 8u64)) }
-            Ok(Instruction::SB(i)) => { let (a, _, imm) = i.unpack(); Some((regs[a.to_u8() as usize] as u128 + imm.to_u16() as u128, 1)) }
-            Ok(Instruction::MCL(i)) => { let (a, b) = i.unpack(); Some((regs[a.to_u8() as usize] as u128, regs[b.to_u8() as usize])) }
-            Ok(Instruction::MCLI(i)) => { let (a, imm) = i.unpack(); Some((regs[a.to_u8() as usize] as u128, imm.to_u32() as u64)) }
+            Ok(Instruction::SW(i)) => { let (a, _, imm) = i.unpack(); Some((rg(a) as u128 + 8 * imm.to_u16() as u128, 8u64)) }
+            Ok(Instruction::SHW(i)) => { let (a, _, imm) = i.unpack(); Some((rg(a) as u128 + 4 * imm.to_u16() as u128, 4)) }
+            Ok(Instruction::SQW(i)) => { let (a, _, imm) = i.unpack(); Some((rg(a) as u128 + 2 * imm.to_u16() as u128, 2)) }
+            Ok(Instruction::SB(i)) => { let (a, _, imm) = i.unpack(); Some((rg(a) as u128 + imm.to_u16() as u128, 1)) }
+            Ok(Instruction::MCL(i)) => { let (a, b) = i.unpack(); Some((rg(a) as u128, rg(b))) }
+            Ok(Instruction::MCLI(i)) => { let (a, imm) = i.unpack(); Some((rg(a) as u128, imm.to_u32() as u64)) }
+            Ok(Instruction::ECK1(i)) => { let (a, _, _) = i.unpack(); Some((rg(a) as u128, 64)) }
+            Ok(Instruction::ECR1(i)) => { let (a, _, _) = i.unpack(); Some((rg(a) as u128, 64)) }
+            Ok(Instruction::S256(i)) => { let (a, _, _) = i.unpack(); Some((rg(a) as u128, 32)) }
+            Ok(Instruction::K256(i)) => { let (a, _, _) = i.unpack(); Some((rg(a) as u128, 32)) }
+            Ok(Instruction::BHSH(i)) => { let (a, _) = i.unpack(); Some((rg(a) as u128, 32)) }
+            Ok(Instruction::CB(i)) => { let a = i.unpack(); Some((rg(a) as u128, 32)) }
+            Ok(Instruction::CROO(i)) => { let (a, _) = i.unpack(); Some((rg(a) as u128, 32)) }
+            Ok(Instruction::CCP(i)) => { let (a, _, _, d) = i.unpack(); Some((rg(a) as u128, rg(d))) }
+            Ok(Instruction::BLDD(i)) => { let (a, _, _, d) = i.unpack(); Some((rg(a) as u128, rg(d))) }
+            Ok(Instruction::ECOP(i)) => { let (a, _, _, _) = i.unpack(); Some((rg(a) as u128, 64)) }
+            Ok(Instruction::WDOP(i)) => { let (a, _, _, _) = i.unpack(); Some((rg(a) as u128, 16)) }
+            Ok(Instruction::WDML(i)) => { let (a, _, _, _) = i.unpack(); Some((rg(a) as u128, 16)) }
+            Ok(Instruction::WDDV(i)) => { let (a, _, _, _) = i.unpack(); Some((rg(a) as u128, 16)) }
+            Ok(Instruction::WDMD(i)) => { let (a, _, _, _) = i.unpack(); Some((rg(a) as u128, 16)) }
+            Ok(Instruction::WDAM(i)) => { let (a, _, _, _) = i.unpack(); Some((rg(a) as u128, 16)) }
+            Ok(Instruction::WDMM(i)) => { let (a, _, _, _) = i.unpack(); Some((rg(a) as u128, 16)) }
+            Ok(Instruction::WQOP(i)) => { let (a, _, _, _) = i.unpack(); Some((rg(a) as u128, 32)) }
+            Ok(Instruction::WQML(i)) => { let (a, _, _, _) = i.unpack(); Some((rg(a) as u128, 32)) }
+            Ok(Instruction::WQDV(i)) => { let (a, _, _, _) = i.unpack(); Some((rg(a) as u128, 32)) }
+            Ok(Instruction::WQMD(i)) => { let (a, _, _, _) = i.unpack(); Some((rg(a) as u128, 32)) }
+            Ok(Instruction::WQAM(i)) => { let (a, _, _, _) = i.unpack(); Some((rg(a) as u128, 32)) }
+            Ok(Instruction::WQMM(i)) => { let (a, _, _, _) = i.unpack(); Some((rg(a) as u128, 32)) }
+            Ok(Instruction::SRWQ(i)) => { let (a, _, _, d) = i.unpack(); Some((rg(a) as u128, 32 * rg(d))) }
+            Ok(Instruction::SRDD(i)) => { let (a, _, _, d) = i.unpack(); Some((rg(a) as u128, rg(d))) }
+            Ok(Instruction::SRDI(i)) => { let (a, _, _, d) = i.unpack(); Some((rg(a) as u128, d.to_u8() as u64)) }
             _ => None,
         };
+        // SRDD / SRDI of an absent slot write nothing (`$err = 1`) and therefore make no destination check
+        let absent_dynamic = matches!(name, "SRDD" | "SRDI") && outcome == "ok" && vm.registers()[8] == 1;
+        // SRWQ over several slots checks 32 bytes at a time: the first unwritable slot decides
+        let store = if name == "SRWQ" { store.map(|(a, l)| if l > 32 { (a, 32u64) } else { (a, l) }) } else { store };
+        let store = if absent_dynamic { ctx.count("store.absent-dynamic-read"); None } else { store };
         if let Some((addr, len)) = store {
             let sl = before.0.len() as u64;
             let line = format!("w {sl} {hp_b} {ssp_b} {sp_b} {hp_b} {prev_b} {addr} {len}");
@@ -334,6 +483,7 @@ fn run_program(ctx: &mut Ctx, idx: u64) {
                 else if !spec_owned(&own, addr as u64, addr as u64 + len) { "MemoryOwnership" } else { "ok" };
             if outcome != exp { ctx.oracle_fail("program-store-outcome", &format!("{}; at step {steps}: {name} {line}", replay()), &format!("implementation {outcome}, specification {exp}")); }
             ctx.count(&format!("store.d{depth}.{outcome}"));
+            ctx.count(&format!("writer.{name}.{outcome}"));
             ctx.emit(&line, &outcome);
         }
         let copy = match Instruction::try_from(raw) {
@@ -367,6 +517,16 @@ fn run_program(ctx: &mut Ctx, idx: u64) {
                     ctx.oracle_fail(&format!("unexpected-panic-{name}"), &format!("{}; at step {steps}", replay()),
                         &format!("{name} panicked with {r} (ssp={ssp_b} sp={sp_b} hp={hp_b} prev_hp={prev_b} fp={fp_b})"));
                 }
+                // a panicking instruction must not have written anything: diff the whole memory, leaving out what the VM itself
+                // rewrites when it finalises the reverted transaction (balance table and transaction bytes)
+                let after = snapshot(vm, hp_b.min(vm.registers()[R_HP]));
+                for (s, e) in diff(&before, &after) {
+                    if !(bal_lo <= s && e <= tx_hi) {
+                        ctx.oracle_fail(&format!("panic-wrote-memory-{name}"), &format!("{}; at step {steps}", replay()),
+                            &format!("{name} panicked with {r} but [{s},{e}) changed (ssp={ssp_b} sp={sp_b} hp={hp_b} prev_hp={prev_b} fp={fp_b})"));
+                    }
+                }
+                ctx.count("panic.memory-diffed");
             } else { ctx.count("end.return"); }
             break; // the VM finalises outputs after the last instruction; not an instruction's write
         }
